@@ -55,7 +55,7 @@ class C29(Prop):
     assumptions = ['deploy config domain is a plain lower-case DNS name (letters, digits, -, .), not IPv4-like, no xn-- label; base path '
                    'empty or starting with /', 'the browser follows the redirect as the WHATWG URL / Fetch standards prescribe',
                    'the Location header carries the accepted string (aiohttp/yarl re-quoting observed, not modelled)']
-    budget = {'quick': 3000, 'thorough': 60000}
+    budget = {'quick': 8000, 'thorough': 100000}
     search_budget = {'quick': 8000, 'thorough': 100000}
 
     # ---- real code ---------------------------------------------------------------------------------------------------------
@@ -227,7 +227,7 @@ class C29(Prop):
             h[:len(h) // 2], h[len(h) // 2:], h.replace('.', '。'), h.replace('.', '．', 1), h.replace('.', '%2e', 1),
             h[:2] + '\t' + h[2:], h[:2] + '\n' + h[2:], h[:3] + '%' + '%02x' % ord(h[3]) + h[4:] if len(h) > 4 else h,
             h + '\x00', h + ' ', ' ' + h, h + '\\', h + '@' + 'evil.com', 'evil.com@' + h, h.capitalize(), h.replace('a', 'ａ', 1),
-            h + ':', h + '%', 'www.' + h, rng.choice(SERVICES) + '.' + domain, 'notebook.' + domain, domain.split('.', 1)[-1],
+            h + ':', h + '%', 'www.' + h, 'www.' + domain, rng.choice(SERVICES) + '.' + domain, 'notebook.' + domain, domain.split('.', 1)[-1],
         ]
         return rng.choice(variants)
 
